@@ -19,7 +19,7 @@ import sys
 import time
 
 ROOT = os.path.dirname(os.path.dirname(os.path.abspath(__file__)))
-SCRATCH = os.environ.get("VERIF_SELFTEST_DIR", "/tmp/verif-selftest")
+SCRATCH = os.environ.get("VERIF_SELFTEST_DIR", "/tmp/verif-selftest-%d" % os.getpid())
 
 
 def sh(cmd, **kw):
